@@ -81,6 +81,8 @@ def build_roots(kinds):
             add('r_trv_%s_%s' % (acc, mp), 'pub fn r_trv_%s_%s(t: %s) -> Vec2<f32> { %s }' % (acc, mp, TV, call), kind='trans', clamped=cl, mapper=mp, elem='Vec2')
     add('r_tr_ctor', 'pub fn r_tr_ctor(a: f32, b: f32, p: f32) -> (Transition<f32, IdentityProgressMapper, f32>, Transition<f32, IdentityProgressMapper, f32>, core::ops::Range<f32>) { (Transition::with_mapper(a, b, IdentityProgressMapper), Transition::with_mapper_and_progress(a, b, IdentityProgressMapper, p), Transition::with_mapper_and_progress(a, b, IdentityProgressMapper, p).into_range()) }', kind='trctor')
     add('r_tr_lin_ctor', 'pub fn r_tr_lin_ctor(a: f32, b: f32, p: f32) -> (LinearTransition<f32, f32>, LinearTransition<f32, f32>, f32, f32) { (LinearTransition::new(a, b), LinearTransition::with_progress(a, b, p), LinearTransition::<f32, f32>::with_progress(a, b, p).into_current_unclamped(), LinearTransition::<f32, f32>::new(a, b).into_current_unclamped()) }', kind='trlin')
+    # the default fn mapper is the identity; a mapper built from a fn pointer calls it
+    add('r_tr_fnmapper', 'pub fn r_tr_fnmapper(a: f32, b: f32, p: f32, f: fn(f32) -> f32) -> (f32, f32) { (Transition::with_mapper_and_progress(a, b, ProgressMapperFn::<f32>::default(), p).into_current_unclamped(), Transition::with_mapper_and_progress(a, b, ProgressMapperFn::from(f), p).into_current_unclamped()) }', kind='trfn')
     add('r_tr_from_range', 'pub fn r_tr_from_range(a: f32, b: f32) -> Transition<f32, IdentityProgressMapper, f32> { Transition::from(a..b) }', kind='trrange')
     return roots, meta
 
@@ -198,6 +200,10 @@ def run(ctx):
                 vec_eq(ctx, key, got[:6], [a, b, C(0), a, b, pr], 'perm: LinearTransition::new starts at progress 0; with_progress keeps start, end and progress', w)
                 ctx.same(key + '/current', got[6], a + (b - a) * pr, 'alg=: the current value of a linear transition is the interpolation at its progress', w)
                 ctx.same(key + '/current-at-start', got[7], a, 'alg=: a new transition is at its start', w)
+            elif k == 'trfn':
+                p = rs.only(); a, b, pr = sym('a0'), sym('a1'), sym('a2')
+                ctx.same(key + '/default-mapper', p.ret[0], a + (b - a) * pr, 'alg=: the default fn mapper is the identity: current value = interpolation at the progress', w)
+                ctx.same(key + '/fn-mapper', p.ret[1], a + (b - a) * fn('call:a3', pr), 'alg=: a mapper built from a fn pointer maps the progress through it', w)
             elif k == 'trrange':
                 p = rs.only()
                 vec_eq(ctx, key, leaves(p.ret), [sym('a0'), sym('a1'), C(0)], 'perm: Transition::from(start..end) starts at progress 0', w)
